@@ -287,3 +287,27 @@ def saved_passkey(p, mc, T, N):
         return None, None
     bb, t = sv[0]
     return record_fields(N.norm(T.operand(t["args"][1], bb, "t"))), bb
+
+
+def hmac_functions(p, crate="passkey_authenticator"):
+    """the functions of the authenticator that derive PRF outputs: every function whose body (or a closure of it) calls
+    hmac_sha256 — found by what it does, wherever it lives (free function, method, …)"""
+    from . import names
+    out = []
+    for b in p.all_bodies:
+        if b.crate != crate or b.path != b.root or b.def_kind not in ("Fn", "AssocFn"):
+            continue
+        if any(names.call_is(t, "crypto::hmac_sha256") or names.call_is(t, "hmac_sha256") for nb in p.nested(b.path) for _bb, t in nb.calls()):
+            out.append(b)
+    return out
+
+
+def param_roles(body, **want):
+    """parameter index by type: role=substring of the parameter's type; a role is None unless exactly one parameter matches"""
+    n = body.j.get("arg_count", 0)
+    tys = [(i, (body.j["locals"][i].get("ty") or "")) for i in range(1, n + 1)]
+    out = {}
+    for role, pat in want.items():
+        m = [i for i, ty in tys if (ty == pat if pat == "bool" else ty.rstrip(">").endswith(pat) or ("::" + pat + ">") in ty or ty.endswith(pat))]
+        out[role] = m[0] if len(m) == 1 else None
+    return out
